@@ -379,7 +379,7 @@ func (e *Evaluator) evalArrayCaseMatch(value *Cell, pattern *ExprArray) (bool, m
 		return false, nil, nil
 	}
 
-	array := value.Value.Array
+	array := *value.Value.Array
 	if len(array) != len(pattern.Items) {
 		return false, nil, nil
 	}
@@ -985,7 +985,7 @@ func (e *Evaluator) evalStatement(stmt Statement) error {
 
 		switch iterable.Value.Tag {
 		case ValueArray:
-			for index, item := range iterable.Value.Array {
+			for index, item := range *iterable.Value.Array {
 				if indexLocal != nil {
 					indexLocal.Value = NewValue(index)
 				}
@@ -1073,7 +1073,7 @@ func (e *Evaluator) evalPatternRules(patternRules []*Rule) error {
 
 	switch e.root.Value.Tag {
 	case ValueArray:
-		for i, item := range e.root.Value.Array {
+		for i, item := range *e.root.Value.Array {
 			e.ruleRoot = item
 			e.stackTop.locals["$index"] = NewCell(NewValue(i))
 			if err := e.evalRules(patternRules); err != nil {
